@@ -1,4 +1,5 @@
 #![allow(dead_code, unused_imports, unused_macros)]
+#[cfg(kani)] mod c12_unionfind;
 #[cfg(kani)] mod c14_scalars;
 #[cfg(kani)] mod c15_euclid;
 #[cfg(kani)] mod c16_poly;
